@@ -585,11 +585,12 @@ fn larger(r: &mut Rng) -> Prog {
                 0..=3 => Op::SetBit(p),
                 4 => Op::MarkRange(p, 1 + r.usize_below(3)),
                 // now and then a long range (one to two whole words and more)
-                5 => Op::MarkRange(p, if r.chance(1, 3) { 60 + r.usize_below(70) } else { 1 + r.usize_below(3) }),
+                // (under the interpreter a 130-page range costs minutes per schedule: shorter there)
+                5 => Op::MarkRange(p, if r.chance(1, 3) { if cfg!(miri) { 3 + r.usize_below(6) } else { 60 + r.usize_below(70) } } else { 1 + r.usize_below(3) }),
                 6 => Op::ResetBit(p),
                 7 => Op::Harvest,
                 8 => Op::Clone,
-                _ => Op::ResetRange(p, if r.chance(1, 4) { 60 + r.usize_below(70) } else { 1 + r.usize_below(2) }),
+                _ => Op::ResetRange(p, if r.chance(1, 4) { if cfg!(miri) { 3 + r.usize_below(6) } else { 60 + r.usize_below(70) } } else { 1 + r.usize_below(2) }),
             });
         }
         if t == 2 {
